@@ -15,6 +15,8 @@ specification:
   tu_nonid    ToUnicode + non-identity CMap (TAGGED: known finding)
   ttf         Adobe-Identity + embedded TrueType 'cmap' (vf/gen/ttf07.py)
   adv_h/adv_v W/DW and W2/DW2 arrays, pen movement, vertical position vector
+  shared      2-3 Type0 fonts (different Encoding and/or ToUnicode) over ONE indirect descendant CIDFont, font
+              caching on, fonts interleaved on one page or spread over two pages
   vdef        vertical default position vector (w0/2 from W/DW) — own family, tag kept for classification
 
 CMapDB.get_cmap(name).decode and CMapDB.get_unicode_map(...).get_unichr are also
@@ -44,7 +46,10 @@ RULE = (
     "3 header forms, usecmap, 7 spelling bits) with every mapped code shown; cjk_*: 16 legacy + 32 Unicode-encoded "
     "predefined CMaps, text = kana/hangul/unified ideographs of the stdlib codec's set (exhaustive in thorough; all kana "
     "and a seeded sample of hangul/ideographs in quick) plus ASCII alphanumerics as 1-byte mix-ins; ttf: random format "
-    "0/4 cmap tables; adv_*: random W/DW/W2/DW2 arrays in both syntaxes with agreeing overlaps and indirect elements. "
+    "0/4 cmap tables; adv_*: random W/DW/W2/DW2 arrays in both syntaxes with agreeing overlaps and indirect elements, "
+    "DW 0 / tiny DW and DW2[1]=0 together with a non-zero descriptor MissingWidth (never a CIDFont width source); "
+    "shared: 2-3 Type0 fonts differing in Encoding (1-/2-byte, H/V) and/or ToUnicode over one shared indirect CIDFont, "
+    "caching on, interleaved lines on one or two pages, each line judged by its own font. "
     "distinct = distinct case descriptions; non-trivial = at least one glyph expected. "
     "Left out as undefined/ambiguous: bfrange whose last destination byte would overflow (9.10.3), destinations that are "
     "not UTF-16BE (odd length, lone surrogates), a source code defined twice, conflicting overlapping W/W2 entries, "
@@ -257,12 +262,15 @@ def _w2_array(doc: Doc, w2: Dict[str, Any]) -> Any:
     return doc.add(arr) if w2.get("ref") else arr
 
 
-def build_pdf(font: Dict[str, Any], lines: List[Dict[str, Any]], fs: Num) -> bytes:
-    doc = Doc()
+def _add_cidfont(doc: Doc, font: Dict[str, Any]) -> Ref:
+    """The descendant CIDFont (always an indirect object)."""
     fd: Dict[str, Any] = {
         "Type": N("FontDescriptor"), "FontName": N("VFCID"), "Flags": 4, "FontBBox": [0, -120, 1000, 880],
         "ItalicAngle": 0, "Ascent": 880, "Descent": -120, "CapHeight": 700, "StemV": 80,
     }
+    if font.get("MissingWidth") is not None:
+        # MissingWidth belongs to simple fonts (9.8.1); the widths of a CIDFont come from W / DW only
+        fd["MissingWidth"] = pnum(font["MissingWidth"])
     if font.get("ttf") is not None:
         data = ttf07.build_ttf(font["ttf"])
         sd: Dict[str, Any] = {"Length1": len(data)}
@@ -289,6 +297,10 @@ def build_pdf(font: Dict[str, Any], lines: List[Dict[str, Any]], fs: Num) -> byt
         cid["DW2"] = doc.add(dw2) if font.get("DW2_ref") else dw2
     if font.get("W2") is not None:
         cid["W2"] = _w2_array(doc, font["W2"])
+    return doc.add(cid)
+
+
+def _add_type0(doc: Doc, font: Dict[str, Any], cidref: Ref) -> Ref:
     cmapname = font["cmap"]
     if font.get("enc_form", "name") == "name":
         enc: Any = N(cmapname)
@@ -299,28 +311,58 @@ def build_pdf(font: Dict[str, Any], lines: List[Dict[str, Any]], fs: Num) -> byt
               "CIDSystemInfo": {"Registry": b"Adobe", "Ordering": b"Identity", "Supplement": 0}, "WMode": wmode}
         enc = doc.add(Stream(sd, identity_cmap_program(cmapname, nbytes, wmode)))
     t0: Dict[str, Any] = {"Type": N("Font"), "Subtype": N("Type0"), "BaseFont": N("VFCID"), "Encoding": enc,
-                          "DescendantFonts": [doc.add(cid)]}
+                          "DescendantFonts": [cidref]}
     if font.get("tounicode") is not None:
         extra, data = TU.stream_parts(font["tounicode"])
         t0["ToUnicode"] = doc.add(Stream({k: N(v) for k, v in extra.items()}, data))
-    fref = doc.add(t0)
+    return doc.add(t0)
 
+
+def _show_ops(ln: Dict[str, Any]) -> List[bytes]:
+    out = [b" ".join(ser(pnum(v)) for v in ln["tm"]) + b" Tm"]
+    for op in ln["shows"]:
+        if op[0] == "Tj":
+            out.append(_pdfstr(op[1], op[2] if len(op) > 2 else 1) + b" Tj")
+        else:
+            parts = []
+            for k, it in enumerate(op[1]):
+                if isinstance(it, (bytes, bytearray)):
+                    parts.append(_pdfstr(bytes(it), (op[2] if len(op) > 2 else 1) + k))
+                else:
+                    parts.append(ser(pnum(it)))
+            out.append(b"[" + b" ".join(parts) + b"] TJ")
+    return out
+
+
+def build_pdf(font: Dict[str, Any], lines: List[Dict[str, Any]], fs: Num) -> bytes:
+    doc = Doc()
+    fref = _add_type0(doc, font, _add_cidfont(doc, font))
     out = [b"BT", b"/F1 " + ser(pnum(fs)) + b" Tf"]
     for ln in lines:
-        out.append(b" ".join(ser(pnum(v)) for v in ln["tm"]) + b" Tm")
-        for op in ln["shows"]:
-            if op[0] == "Tj":
-                out.append(_pdfstr(op[1], op[2] if len(op) > 2 else 1) + b" Tj")
-            else:
-                parts = []
-                for k, it in enumerate(op[1]):
-                    if isinstance(it, (bytes, bytearray)):
-                        parts.append(_pdfstr(bytes(it), (op[2] if len(op) > 2 else 1) + k))
-                    else:
-                        parts.append(ser(pnum(it)))
-                out.append(b"[" + b" ".join(parts) + b"] TJ")
+        out += _show_ops(ln)
     out.append(b"ET")
     page_doc([{"content": b"\n".join(out) + b"\n", "resources": {"Font": {"F1": fref}}}], doc)
+    return doc.build()
+
+
+def build_pdf_shared(cidfont: Dict[str, Any], fonts: List[Dict[str, Any]], lines: List[Dict[str, Any]], fs: Num) -> bytes:
+    """Several Type0 fonts over ONE indirect descendant CIDFont; every line selects its font (and page)."""
+    doc = Doc()
+    cidref = _add_cidfont(doc, cidfont)
+    frefs = {"F%d" % (i + 1): _add_type0(doc, f, cidref) for i, f in enumerate(fonts)}
+    res = doc.add({"Font": frefs})
+    npages = 1 + max(ln.get("page", 0) for ln in lines)
+    pages = []
+    for p in range(npages):
+        out = [b"BT"]
+        for ln in lines:
+            if ln.get("page", 0) != p:
+                continue
+            out.append(b"/F%d " % (ln["font"] + 1) + ser(pnum(fs)) + b" Tf")
+            out += _show_ops(ln)
+        out.append(b"ET")
+        pages.append({"content": b"\n".join(out) + b"\n", "resources": res})
+    page_doc(pages, doc)
     return doc.build()
 
 
@@ -362,26 +404,30 @@ def _exc_key(e: BaseException) -> str:
     return "exception:%s:%s" % (type(e).__name__, fn)
 
 
-def observe(data: bytes) -> Tuple[Optional[List[Dict[str, Any]]], Optional[Tuple[str, str]]]:
-    """-> (glyphs of page 1, None) or (None, (key, detail))."""
+def observe(data: bytes, caching: bool = False, npages: int = 1) -> Tuple[Optional[List[Dict[str, Any]]], Optional[Tuple[str, str]]]:
+    """-> (glyphs of all pages in order, None) or (None, (key, detail)).  One resource manager for the document."""
     from pdfminer.layout import LTChar
     from pdfminer.pdfinterp import PDFPageInterpreter, PDFResourceManager
     from pdfminer.pdfpage import PDFPage
 
     try:
-        rm = PDFResourceManager(caching=False)
+        rm = PDFResourceManager(caching=caching)
         dev = _device_class()(rm)
         it = PDFPageInterpreter(rm, dev)
         pages = list(PDFPage.get_pages(io.BytesIO(data)))
-        if len(pages) != 1:
-            return None, ("harness:pages", "expected one page, got %d" % len(pages))
-        it.process_page(pages[0])
-        lt = dev.get_result()
-        chars = [o for o in lt if isinstance(o, LTChar)]
-        if len(chars) != len(dev.cids):
-            return None, ("glyph_objects", "%d render_char calls but %d LTChar objects" % (len(dev.cids), len(chars)))
-        return [{"cid": c, "text": ch.get_text(), "adv": ch.adv, "matrix": tuple(ch.matrix), "bbox": tuple(ch.bbox)}
-                for c, ch in zip(dev.cids, chars)], None
+        if len(pages) != npages:
+            return None, ("harness:pages", "expected %d page(s), got %d" % (npages, len(pages)))
+        out: List[Dict[str, Any]] = []
+        for page in pages:
+            dev.cids = []
+            it.process_page(page)
+            lt = dev.get_result()
+            chars = [o for o in lt if isinstance(o, LTChar)]
+            if len(chars) != len(dev.cids):
+                return None, ("glyph_objects", "%d render_char calls but %d LTChar objects" % (len(dev.cids), len(chars)))
+            out += [{"cid": c, "text": ch.get_text(), "adv": ch.adv, "matrix": tuple(ch.matrix), "bbox": tuple(ch.bbox)}
+                    for c, ch in zip(dev.cids, chars)]
+        return out, None
     except RecursionError as e:
         return None, ("exception:RecursionError", repr(e))
     except Exception as e:  # noqa: BLE001
@@ -534,7 +580,7 @@ def realise(case: Dict[str, Any]):
         font: Dict[str, Any] = {"cmap": name, "enc_form": form, "nbytes": nbytes, "vertical": vertical,
                                 "ros": ["Adobe", "Identity", 0], "cidsub": case.get("cidsub", "CIDFontType2"),
                                 "cidtogid": case.get("cidtogid", False)}
-        for k in ("W", "DW", "W2", "DW2", "DW_ref", "DW2_ref", "tounicode", "ttf", "ttf_flate"):
+        for k in ("W", "DW", "W2", "DW2", "DW_ref", "DW2_ref", "tounicode", "ttf", "ttf_flate", "MissingWidth"):
             if case.get(k) is not None:
                 font[k] = case[k]
         umap: Optional[Dict[int, str]] = None
@@ -706,6 +752,8 @@ def api_cjk(name: str, coll: str, enc: str, text: str) -> List[Tuple[str, str]]:
 def check_case(case: Dict[str, Any]) -> Tuple[List[Tuple[str, str]], Dict[str, Any]]:
     """-> (failures, stats)."""
     fam = case["fam"]
+    if fam == "shared":
+        return check_shared(case)
     stats: Dict[str, Any] = {"glyphs": 0}
     font, lines, fs, exp, vertical = realise(case)
     data = build_pdf(font, lines, fs)
@@ -744,6 +792,79 @@ def check_case(case: Dict[str, Any]) -> Tuple[List[Tuple[str, str]], Dict[str, A
     return uniq, stats
 
 
+def check_shared(case: Dict[str, Any]) -> Tuple[List[Tuple[str, str]], Dict[str, Any]]:
+    """Several Type0 fonts (different Encoding / ToUnicode) over one shared descendant CIDFont object, font caching
+    on: every line must be segmented, mapped and advanced as ITS font's Encoding CMap and ToUnicode prescribe."""
+    fs = case["fs"]
+    cidfont: Dict[str, Any] = {"ros": ["Adobe", "Identity", 0], "cidsub": case.get("cidsub", "CIDFontType2")}
+    for k in ("W", "DW", "W2", "DW2", "DW_ref", "DW2_ref", "MissingWidth"):
+        if case.get(k) is not None:
+            cidfont[k] = case[k]
+    wmap = eval_w(case.get("W"))
+    w2map = eval_w2(case.get("W2"))
+    dw = fnum(case["DW"]) if case.get("DW") is not None else 1000.0
+    dw2 = [fnum(v) for v in case["DW2"]] if case.get("DW2") is not None else [880.0, -1000.0]
+
+    def glyph_fn(f: Dict[str, Any]):
+        umap = TU.evaluate(f["tounicode"]) if f.get("tounicode") is not None else None
+        nocheck = bool(f.get("tounicode") and f["tounicode"].get("usecmap"))
+        vertical = f["vertical"]
+
+        def glyph(code: int) -> Dict[str, Any]:
+            cid = code
+            if umap is None:
+                text: Optional[str] = cid_text(cid)
+            elif cid in umap:
+                text = umap[cid]
+            else:
+                text = None if nocheck else cid_text(cid)
+            if vertical:
+                if cid in w2map:
+                    w1, vx, _vy = w2map[cid]
+                    return {"cid": cid, "text": text, "w": w1, "vx": vx}
+                return {"cid": cid, "text": text, "w": dw2[1], "vx": wmap.get(cid, dw) / 2.0}
+            return {"cid": cid, "text": text, "w": wmap.get(cid, dw)}
+        return glyph
+
+    fonts = case["fonts"]
+    gfs = [glyph_fn(f) for f in fonts]
+    lines = sorted(case["lines"], key=lambda ln: ln.get("page", 0))  # stable: document order
+    exps = []
+    for ln in lines:
+        f = fonts[ln["font"]]
+        exps.append(model([ln], fs, f["vertical"], split_fixed(f["nbytes"]), gfs[ln["font"]]))
+    total = sum(len(e) for e in exps)
+    stats = {"glyphs": total}
+    data = build_pdf_shared(cidfont, fonts, lines, fs)
+    npages = 1 + max(ln.get("page", 0) for ln in lines)
+    obs, err = observe(data, caching=True, npages=npages)
+    if err is not None:
+        return [(err[0], "%s: %s" % (_brief(case), err[1]))], stats
+    assert obs is not None
+    fails: List[Tuple[str, str]] = []
+    pos = 0
+    for k, (ln, exp) in enumerate(zip(lines, exps)):
+        f = fonts[ln["font"]]
+        part = obs[pos:pos + len(exp)]
+        pos += len(exp)
+        r = compare("shared", f["vertical"], fs, exp, part)
+        if r:
+            fails += [(key, "[shared] line %d (page %d) uses font F%d = %s/%s of %s: %s"
+                       % (k, ln.get("page", 0), ln["font"] + 1, f["cmap"], "ToUnicode" if f.get("tounicode") else "no ToUnicode",
+                          [g["cmap"] for g in fonts], d)) for key, d in r]
+            break
+    if len(obs) != total and not any(k.startswith("glyph_count") for k, _ in fails):
+        fails.append(("glyph_count:shared", "[shared] fonts %s: expected %d glyphs in the document, observed %d"
+                      % ([g["cmap"] for g in fonts], total, len(obs))))
+    seen = set()
+    uniq = []
+    for key, d in fails:
+        if key not in seen:
+            seen.add(key)
+            uniq.append((key, d))
+    return uniq, stats
+
+
 def _texts(case: Dict[str, Any]) -> List[str]:
     out = []
     for ln in case["lines"]:
@@ -756,6 +877,8 @@ def _texts(case: Dict[str, Any]) -> List[str]:
 
 
 def _brief(case: Dict[str, Any]) -> str:
+    if case["fam"] == "shared":
+        return "[shared %s]" % "+".join(f["cmap"] for f in case["fonts"])
     return "[%s %s]" % (case["fam"], case.get("cmap"))
 
 
@@ -1310,18 +1433,87 @@ def gen_adv(rng: random.Random, vertical: bool) -> Dict[str, Any]:
         if rng.random() < 0.9:
             case["W"], cids = gen_w(rng)
         if rng.random() < 0.6:
-            case["DW"] = rng.choice([1000, 0, 500, 600, "437.5", 2000])
+            case["DW"] = rng.choice([1000, 0, 0, 500, 600, "437.5", 2000, 1, 10, "0.5"])
             case["DW_ref"] = rng.random() < 0.2
         if rng.random() < 0.2:
             # vertical metrics in a horizontal font are not used (WMode 0)
             case["W2"], _ = gen_w2(rng)
             case["DW2"] = [880, -500]
+    if rng.random() < 0.5:
+        # a descriptor entry for simple fonts: never a source of CIDFont widths (those are W / DW, DW2[1])
+        case["MissingWidth"] = rng.choice([500, 250, 600, 1000, 333])
     cids = list(dict.fromkeys(cids))
     if len(cids) > 60:
         cids = rng.sample(cids, 60)
     cids += [rng.randrange(65536) for _ in range(rng.randint(1, 6))]
     rng.shuffle(cids)
     case["lines"] = _chunk_codes(rng, cids, 2, per_line=rng.choice([5, 12, 40]))
+    return case
+
+
+SHARED_KINDS = [
+    ("Identity-H", "name", 2, False), ("Identity-V", "name", 2, True), ("OneByteIdentityH", "stream", 1, False),
+    ("OneByteIdentityV", "stream", 1, True), ("DLIdent-H", "stream", 2, False), ("DLIdent-V", "stream", 2, True),
+]
+
+
+def gen_shared(rng: random.Random) -> Dict[str, Any]:
+    """2-3 Type0 fonts that differ in Encoding and/or ToUnicode and reference the same indirect CIDFont."""
+    n = rng.choice([2, 2, 3])
+    if rng.random() < 0.25:
+        # same Encoding twice, told apart only by their ToUnicode maps
+        k0 = rng.choice(SHARED_KINDS)
+        kinds = [k0, k0] + ([rng.choice(SHARED_KINDS)] if n == 3 else [])
+        need_tu = {0, 1}
+    else:
+        kinds = rng.sample(SHARED_KINDS, n)
+        need_tu = set()
+    fonts = []
+    for i, (name, form, nbytes, vertical) in enumerate(kinds):
+        f: Dict[str, Any] = {"cmap": name, "enc_form": form, "nbytes": nbytes, "vertical": vertical}
+        if i in need_tu or rng.random() < 0.7:
+            f["tounicode"] = gen_prog(rng, nbytes)
+        fonts.append(f)
+    case: Dict[str, Any] = {"fam": "shared", "cidsub": rng.choice(["CIDFontType2", "CIDFontType0"]),
+                            "fs": rng.choice(FS_CHOICES), "fonts": fonts}
+    wc: List[int] = []
+    w2c: List[int] = []
+    if rng.random() < 0.8:
+        case["W"], wc = gen_w(rng)
+        taken = eval_w(case["W"])
+        c0 = rng.randrange(1, 200)
+        if not any((c0 + i) in taken for i in range(4)):
+            case["W"]["items"].append({"t": "l", "c": c0, "ws": [_rw(rng) for _ in range(4)]})  # reachable by 1-byte codes
+            wc += [c0, c0 + 3]
+    if rng.random() < 0.7:
+        case["DW"] = rng.choice([0, 500, 600, 250, 2000, "437.5"])
+    if rng.random() < 0.6:
+        case["W2"], w2c = gen_w2(rng)
+    if rng.random() < 0.5:
+        case["DW2"] = [rng.choice([880, 1000, 700]), rng.choice([-1000, -500, -800, 0])]
+    if rng.random() < 0.4:
+        case["MissingWidth"] = rng.choice([500, 250, 600, 1000])
+    lines: List[Dict[str, Any]] = []
+    for i, f in enumerate(fonts):
+        nbytes = f["nbytes"]
+        top = 1 << (8 * nbytes)
+        codes: List[int] = []
+        if f.get("tounicode") is not None:
+            mapped = list(TU.evaluate(f["tounicode"]))
+            codes += rng.sample(mapped, min(len(mapped), 16))
+        codes += [c for c in rng.sample(wc, min(len(wc), 10)) if c < top]
+        codes += [c for c in rng.sample(w2c, min(len(w2c), 6)) if c < top]
+        codes += [rng.randrange(top) for _ in range(4)]
+        rng.shuffle(codes)
+        for ln in _chunk_codes(rng, codes, nbytes, per_line=rng.choice([8, 20, 40])):
+            ln["font"] = i
+            lines.append(ln)
+    rng.shuffle(lines)
+    if rng.random() < 0.35 and len(lines) > 1:
+        cut = rng.randint(1, len(lines) - 1)
+        for k, ln in enumerate(lines):
+            ln["page"] = 0 if k < cut else 1
+    case["lines"] = lines
     return case
 
 
@@ -1364,6 +1556,9 @@ def minimums(tier: str) -> Dict[str, int]:
                 "ttf_fmt4_array_segments": 350, "ttf_fmt4_array_zero_entries": 2500, "ttf_fmt0_tables": 180,
                 "w_indirect_items": 300, "w2_indirect_items": 300, "w_overlap_items": 150, "w2_overlap_items": 80,
                 "dw_given": 150, "dw2_given": 200, "api_cjk_chars": 50000, "cjk_mixed_cases": 500,
+                "cases:shared": 200, "shared_fonts": 400, "shared_two_page_docs": 40, "shared_mixed_writing_modes": 60,
+                "shared_mixed_code_lengths": 50, "shared_same_encoding_different_tounicode": 30,
+                "dw_zero_with_missingwidth": 15, "dw2_zero_with_missingwidth": 12, "missingwidth_in_descriptor": 350,
                 "seen:cjk_cmaps": 48, "seen:ident_kinds": 8, "seen:tu_headers": 3, "seen:ttf_layouts": 10,
                 "class:kana": 6000, "class:hangul": 3500, "class:ideograph": 25000}
     return {"evaluations": 60000, "distinct": 58000, "glyphs_compared": 5000000,
@@ -1375,6 +1570,9 @@ def minimums(tier: str) -> Dict[str, int]:
             "ttf_fmt4_array_segments": 9000, "ttf_fmt4_array_zero_entries": 70000, "ttf_fmt0_tables": 5000,
             "w_indirect_items": 8000, "w2_indirect_items": 8000, "w_overlap_items": 5000, "w2_overlap_items": 2800,
             "dw_given": 4500, "dw2_given": 6000, "api_cjk_chars": 800000, "cjk_mixed_cases": 7000,
+            "cases:shared": 3000, "shared_fonts": 6000, "shared_two_page_docs": 700, "shared_mixed_writing_modes": 1000,
+            "shared_mixed_code_lengths": 900, "shared_same_encoding_different_tounicode": 500,
+            "dw_zero_with_missingwidth": 350, "dw2_zero_with_missingwidth": 350, "missingwidth_in_descriptor": 7000,
             # the exhaustive part is deterministic: the sizes of the codec-defined domains summed over the 48 CMaps
             "cjk_exhaustive_chars": 636000, "class:kana": 8000, "class:hangul": 117000, "class:ideograph": 510000,
             "seen:cjk_cmaps": 48, "seen:ident_kinds": 8, "seen:tu_headers": 3, "seen:ttf_layouts": 10}
@@ -1395,6 +1593,8 @@ def shards(tier: str, seed: int) -> List[Dict[str, Any]]:
         for k in range(4):
             out.append({"kind": "rand", "fam": "adv_v", "n": 140, "sub": 400 + k})
         out.append({"kind": "rand", "fam": "tagged", "n": 120, "sub": 500})
+        for k in range(2):
+            out.append({"kind": "rand", "fam": "shared", "n": 130, "sub": 550 + k})
         for k in range(0, len(cms), 4):
             out.append({"kind": "cjk", "cmaps": list(range(k, min(k + 4, len(cms)))), "sample": 400, "mixed": 12, "sub": 600 + k})
         return out
@@ -1410,6 +1610,8 @@ def shards(tier: str, seed: int) -> List[Dict[str, Any]]:
         out.append({"kind": "rand", "fam": "adv_v", "n": 700, "sub": 400 + k})
     for k in range(2):
         out.append({"kind": "rand", "fam": "tagged", "n": 450, "sub": 500 + k})
+    for k in range(8):
+        out.append({"kind": "rand", "fam": "shared", "n": 500, "sub": 550 + k})
     for k in range(len(cms)):
         out.append({"kind": "cjk", "cmaps": [k], "sample": 0, "mixed": 150, "sub": 600 + k})
     return out
@@ -1484,9 +1686,29 @@ def _account(case: Dict[str, Any], stats: Dict[str, Any], rec) -> None:
                 if any(c in seen for c in cs):
                     rec.count(name + "_overlap_items")
                 seen.update(cs)
+    if fam == "shared":
+        rec.count("shared_fonts", len(case["fonts"]))
+        rec.count("shared_fonts_with_tounicode", sum(1 for f in case["fonts"] if f.get("tounicode") is not None))
+        rec.see("shared_combos", "+".join(sorted("%s%s" % (f["cmap"], "+TU" if f.get("tounicode") else "") for f in case["fonts"])))
+        if len({f["vertical"] for f in case["fonts"]}) == 2:
+            rec.count("shared_mixed_writing_modes")
+        if len({f["nbytes"] for f in case["fonts"]}) == 2:
+            rec.count("shared_mixed_code_lengths")
+        if len({(f["cmap"], f["enc_form"]) for f in case["fonts"]}) < len(case["fonts"]):
+            rec.count("shared_same_encoding_different_tounicode")
+        if any(ln.get("page", 0) for ln in case["lines"]):
+            rec.count("shared_two_page_docs")
+    if case.get("MissingWidth") is not None and fam in ("adv_h", "adv_v", "shared"):
+        rec.count("missingwidth_in_descriptor")
+        if case.get("DW") is not None and fnum(case["DW"]) == 0 and fam in ("adv_h", "shared"):
+            rec.count("dw_zero_with_missingwidth")
+        if case.get("DW2") is not None and fnum(case["DW2"][1]) == 0 and fam in ("adv_v", "shared"):
+            rec.count("dw2_zero_with_missingwidth")
     if fam in ("adv_h", "adv_v"):
         if case.get("DW") is not None:
             rec.count("dw_given")
+            if 0 <= fnum(case["DW"]) <= 10:
+                rec.count("dw_small")
         if case.get("DW2") is not None:
             rec.count("dw2_given")
 
@@ -1518,6 +1740,8 @@ def run_shard(spec: Dict[str, Any], rec) -> None:
                 case = gen_adv(rng, False)
             elif fam == "adv_v":
                 case = gen_adv(rng, True)
+            elif fam == "shared":
+                case = gen_shared(rng)
             else:
                 case = gen_tu_nonid(rng) if i % 3 else gen_vdef(rng)
             _run_case(case, rec)
